@@ -360,6 +360,8 @@ def gen_cases(ctx):
                 else:
                     req = _request(rng, 1, 65535, max_width=40 if not port_range else 3000, overlap=rng.random() < 0.25)
                 case[side + "ports"] = req
+        if sides == "both" and rng.random() < 0.25:
+            case["dstports"] = case["srcports"]  # the very same request text on both sides
         yield case
 
 
